@@ -42,7 +42,8 @@ try:
         res['demo_patched_tail'] = out1[-400:]
         missing = baseline(repo)
         res['baseline_missing_with_patch'] = missing
-        subprocess.check_call(['rsync', '-a', '--exclude', '.git', '--exclude', 'replays', '--exclude', 'seeded', '/verif/', verif + '/'])
+        rc_ = subprocess.call(['rsync', '-a', '--exclude', '.git', '--exclude', 'replays', '--exclude', 'seeded', '--exclude', '*.tmp.*', '/verif/', verif + '/'], stderr=subprocess.DEVNULL)
+        assert rc_ in (0, 24), rc_
         env = dict(os.environ, VERIF_REPO=repo)
         res['checks'] = {}
         for c in checks:
